@@ -26,6 +26,7 @@ func propC02(c *Ctx) {
 	c.ruleC11WalkUp()
 	c.ruleC10CopyReset()
 	c.ruleC10Cycle() // a legal (acyclic) macro graph must not be rejected, a cyclic one must
+	c.ruleUnquote()  // a quoted and a bare rendering of one parameter must read the same
 }
 
 // ---------- parameter keys ----------
@@ -434,6 +435,7 @@ func propC05(c *Ctx) {
 	c.ruleTagPriority("C05-TAG-PRIORITY")
 	c.ruleValidatorsComplete()
 	c.ruleUpdateKeepsEntry()
+	c.ruleResponseCodeGate("C05-RESPONSE-CODE-GATE")
 }
 
 // ruleUpdateKeepsEntry: an entry of a catalog collection accumulates its cross-references (a tag its interaction
